@@ -123,9 +123,13 @@ var props = map[string]*propSpec{
 	},
 	"C15": {
 		Level: "exploration",
-		Rule: "the -race build of the simulator: every simulator entry point is //go:norace and brackets its hand-offs with RaceDisable/RaceEnable, so the serialised execution carries exactly the happens-before edges of the production primitives; family concurrent (2-8 RPCs with Header / Trailer / option targets read right after their completion signal, per-RPC cancel / deadline / early return, and a control goroutine doing Close / Stop / GracefulStop / InitiateShutdown / registry queries / a second Close at a random step) and family identity (accessors and in-place mutation) run under it; the same families also run in the plain build for panics and deadlocks; " +
+		Rule: "the -race build of the simulator: every simulator entry point is //go:norace and brackets its hand-offs with RaceDisable/RaceEnable, so the serialised execution carries exactly the happens-before edges of the production primitives; the harness proper is compiled without instrumentation and touches memory it shares with the library (call-option targets, metadata handed out by the library, message payloads, peers, in-place mutation of accessor results) only through the instrumented package verif/sim/touch, on the goroutine that an application would use; a report in which neither access was made by the library or through touch is counted (harness_only_race_reports) and not judged; " +
+			"family concurrent (2-8 RPCs with Header / Trailer / option targets read right after their completion signal, per-RPC cancel / deadline / early return, and a control goroutine doing Close / Stop / GracefulStop / InitiateShutdown / registry queries / a second Close at a random step) and families identity, msgflow, teardown, cancel, graceful, registry, meta, bystander, flow and flowcore run under it; family concurrent also runs in the plain build for panics and deadlocks; " +
 			"non-trivial = at least two RPCs ran; distinct = distinct schedule digests; a race report halts the worker (halt_on_error=1) and is attributed to the run in flight",
-		Families:       []famPlan{{Family: "concurrent", Weight: 3, Race: true}, {Family: "identity", Weight: 1, Race: true}, {Family: "concurrent", Weight: 1}},
+		Families: []famPlan{{Family: "concurrent", Weight: 4, Race: true}, {Family: "identity", Weight: 1, Race: true}, {Family: "concurrent", Weight: 1},
+			{Family: "msgflow", Weight: 1, Race: true}, {Family: "teardown", Weight: 1, Race: true}, {Family: "cancel", Weight: 1, Race: true}, {Family: "graceful", Weight: 1, Race: true},
+			{Family: "registry", Weight: 1, Race: true, Batch: 20}, {Family: "meta", Weight: 1, Race: true}, {Family: "bystander", Weight: 1, Race: true}, {Family: "flow", Weight: 1, Race: true, Batch: 10},
+			{Family: "flowcore", Weight: 1, Race: true}},
 		QuickBudget:    50 * time.Second,
 		ThoroughBudget: 15 * time.Minute,
 	},
